@@ -2084,6 +2084,28 @@ fn c18_inner(x: &str, cfg: &Config) -> Outcome {
         FmtOut::Ok(b) => {
             if a != b {
                 let what = first_diff_lines(&a, &b);
+                // Pass 1 can itself emit leading whitespace (a space before a leading block comment);
+                // pass 2 then runs into the formatter's leading-whitespace offset confusion. If the
+                // pass-1 output without that whitespace is a fixpoint, this is the whole story.
+                if a.starts_with(char::is_whitespace) {
+                    if let FmtOut::Ok(b2) = fmt(a.trim_start(), cfg) {
+                        let (a1, b1) = (a.trim_start(), b2.trim_start());
+                        if b.trim_start() != b1 {
+                            // pass 2 behaves differently because of the leading whitespace
+                            o.violations.push((
+                                "nonidempotent|pass1-output-starts-with-whitespace".into(),
+                                format!("fmt(x) starts with whitespace and fmt(fmt(x)) != fmt(x): {what}"),
+                            ));
+                        }
+                        if a1 != b1 {
+                            // what remains without the leading whitespace
+                            for k in classify_nonidempotent(x, a1, b1, aligned) {
+                                o.violations.push((k, format!("fmt(fmt(x)) != fmt(x): {}", first_diff_lines(a1, b1))));
+                            }
+                        }
+                        return o;
+                    }
+                }
                 for k in classify_nonidempotent(x, &a, &b, aligned) {
                     o.violations.push((k, format!("fmt(fmt(x)) != fmt(x): {what}")));
                 }
@@ -2641,7 +2663,13 @@ pub fn run_check<F: Fn(&str, &Config) -> Outcome + Sync>(a: &vhcore::Args, oracl
         rep.sample(serde_json::json!({"base": bs[order[k]].name, "cases": r.evaluations, "accepted": r.accepted}));
     }
     for b in bs.iter().filter(|b| b.name.starts_with("gen:")).step_by(997).take(6) {
-        rep.sample(serde_json::json!({"base": b.name, "text": b.text}));
+        let mut s = serde_json::json!({"base": b.name, "text": b.text});
+        if let Some(l) = lex(&b.text) {
+            let g = n_gaps(&l) / 2;
+            s["comment_variant_example"] = serde_json::json!(with_gap(&l, g, "\n// c\n"));
+            s["whitespace_variant_example"] = serde_json::json!(with_gap(&l, g, "\n\n\n"));
+        }
+        rep.sample(s);
     }
     rep.assume("the formatter is driven exactly like forc-fmt does: Formatter{config,..default}.format(src) with default ExperimentalFeatures");
     rep.assume("inputs on which Formatter::format returns Err (unparseable sources, doc comments at illegal places) are outside the quantifier and only counted");
